@@ -445,15 +445,21 @@ func lifeInvariants(k *kernel.Kernel, cl *node.Cluster, sess *gocql.Session, num
 	// a pool that is being closed has given up its connections but not closed them yet
 	// (the closer is held between the two, or inside the first Conn.Close): they are open
 	// next to those of its successor
-	closing := 0
+	// ... and a goroutine held between the end of a handshake and the moment it hands the
+	// connection to its pool owns one connection that no pool holds yet (if the pool was
+	// closed meanwhile, it closes the connection when it goes on)
+	closing, dialed := 0, 0
 	for _, key := range k.ParkedKeys() {
 		if strings.HasPrefix(key, "pool.close") || strings.HasPrefix(key, "close.") {
 			closing++
 		}
+		if strings.HasPrefix(key, "connect.dialed") {
+			dialed++
+		}
 	}
 	for host, n := range open {
-		if n > numConns+2+closing*numConns {
-			k.Violate("C17", "C17/too-many-open-connections", "%d connections are open to %s, NumConns is %d (+1 for the control connection, +1 being replaced, %d pool(s) in the middle of closing)", n, host, numConns, closing)
+		if n > numConns+2+closing*numConns+dialed {
+			k.Violate("C17", "C17/too-many-open-connections", "%d connections are open to %s, NumConns is %d (+1 for the control connection, +1 being replaced, %d pool(s) in the middle of closing, %d connection(s) held just before their pool takes them)", n, host, numConns, closing, dialed)
 			return
 		}
 	}
